@@ -315,7 +315,7 @@ PROPS["C10"] = dict(
 
 # additions made while strengthening the generators against the seeded changes (DESIGN.md §0.6)
 _RULE_EXTRA = {
-    "C01": "; plus one size-boundary table per run (1 044 481 rows = 4097 blocks, 8 workers), read back in aggregate",
+    "C01": "; 1 in 6 small tables go through the real command line instead (`wrgl commit` then `wrgl export` on a badger + SQLite repository; the exported CSV must hold the model's stored rows in order); plus one size-boundary table per run (1 044 481 rows = 4097 blocks, 8 workers), read back in aggregate",
     "C03": "; plus the size-boundary table (4097 blocks)",
     "C05": "; 1 in 4 keyed tuples with column-changing branches (add / remove / move columns per branch, shared new names), judged by column name; 1 in 4 with an all-empty key",
     "C06": "; block indices built by IndexBlock (0..5 or 255 rows, keyed or keyless): written, read, re-written, stored, fetched, compared with the Lean codec; table profiles of real ingests decoded and re-encoded (no Lean model of the profile: re-encoding clauses only)",
